@@ -1,10 +1,27 @@
 package rules
 
-func init() {
-	Props["C13"] = &Spec{
-		Rules:       []Rule{RuleW1(nil, 90), RuleW2(30), RuleW3, RuleW4},
-		Explanation: "static may-write analysis (DESIGN 3.1): for every function of the module, the caller-visible locations it may write are within tables/purity.tsv; globals written only by initialisers; configuration fields only by constructors; commitments only through BatchNormalize. Value-level clause ('Cs stay Equal') not decided.",
-		Trusted:     commonTrusted,
-		Assumptions: commonAssumptions,
+import "strings"
+
+func spec(expl string, rules ...Rule) *Spec {
+	return &Spec{Rules: rules, Explanation: expl, Trusted: commonTrusted, Assumptions: commonAssumptions}
+}
+
+func nameHas(subs ...string) fnFilter {
+	return func(n string) bool {
+		for _, s := range subs {
+			if strings.Contains(n, s) {
+				return true
+			}
+		}
+		return false
 	}
+}
+
+func init() {
+	Props["C02"] = spec("static decision of the structural soundness clauses (DESIGN 4 C02): accept only from the group-equation comparison (F5), shape checks dominate acceptance and the indexings they protect (F6), every statement/proof component is absorbed with its own index before acceptance (F3,F4), prover/verifier/spec schedules agree (F1,F2), Equal rejects the all-zero pseudo-point on all 16 outcomes (E1,E4). The verification equation itself is not decided.",
+		RuleF1F2(), RuleF3, RuleF4(), RuleF5, RuleF6, RuleE1)
+	Props["C13"] = spec("static may-write analysis (DESIGN 3.1): for every function of the module, the caller-visible locations it may write are within tables/purity.tsv; globals written only by initialisers; configuration fields only by constructors; commitments only through BatchNormalize. Value-level clause ('Cs stay Equal') not decided.",
+		RuleW1(nil, 90), RuleW2(30), RuleW3, RuleW4)
+	Props["C14"] = spec("static decision of the transcript's structural clauses (DESIGN 4 C14): unconditional complete appends, challenge hash-chain ordering and dataflow, canonical encodings absorbed, protocol label first (F7); transcript methods write only their receiver, never labels/messages (W1). SHA-256 and the numeric reduction are not decided.",
+		RuleF7, RuleW1(nameHas("common.Transcript", "common.NewTranscript"), 5))
 }
